@@ -259,6 +259,69 @@ class Gen:
         self.events.append(('powchain-steps-%d' % nsteps, 'powchain', {}))
         return last
 
+    def g_intbounds(self):
+        """an integer result whose value range an implementation can infer (searchsorted: 0..len, mod: 0..k-1, sign: -1..1, bool cast: 0..1,
+        clipped values, element index) followed by an op whose rewriting may consult such a range (minimum, maximum, mod, floor_divide,
+        comparisons, then choose) with a constant at or next to either end of the range — the values must stay NumPy's"""
+        rng = self.rng
+        exact_int = lambda n: n.kind == 'i' and n.exact and n.depth <= 1
+        def int_operand():
+            return self.pick(exact_int) or self.fresh(self.rand_shape(2), 'i', styles=['arg', 'arg', 'const'])
+        src = rng.choice(['searchsorted', 'searchsorted', 'searchsorted', 'mod', 'sign', 'bool', 'clip', 'index'])
+        lo = hi = None
+        if src == 'searchsorted':
+            v = self.pick(lambda n: n.kind in 'if' and n.exact and n.depth <= 1) or self.fresh(self.rand_shape(2), rng.choice('if'), styles=['arg', 'arg', 'const'])
+            allv = sorted({float(x) for val in v.vals for x in numpy.asarray(val).ravel()})
+            n = rng.randint(1, 4)
+            if rng.random() < .6 and len(allv) >= 2:
+                # nodes ON data values, the largest data value beyond (or on) the last node: the result reaches len(a)
+                a = sorted(rng.sample(allv[:-1] if rng.random() < .7 else allv, min(n, len(allv) - 1)))
+            else:
+                a = sorted(rng.choice([k / 4 for k in range(-8, 9)]) for _ in range(n))
+            if v.kind == 'i' or rng.random() < .3: a = sorted(int(numpy.floor(x)) for x in a)
+            P = {'a': a}; kw = {}
+            if rng.random() < .5: kw['side'] = rng.choice(['left', 'right'])
+            if rng.random() < .25 and len(a) > 1:
+                perm = list(range(len(a))); rng.shuffle(perm)
+                un = [None] * len(a)
+                for pos, j in enumerate(perm): un[j] = a[pos]
+                P['a'] = un; kw['sorter'] = perm
+            if kw: P['kw'] = kw
+            s = self.apply('searchsorted', P, [v]); lo, hi = 0, len(a)
+        elif src == 'mod':
+            k = rng.choice([2, 3, 4])
+            s = self.apply(rng.choice(['mod', 'op%']), {}, [int_operand(), self.fresh((), 'i', styles=['scalar', 'const'], values=k)]); lo, hi = 0, k - 1
+        elif src == 'sign':
+            s = self.apply('sign', {}, [int_operand()]); lo, hi = -1, 1
+        elif src == 'bool':
+            b = self.pick(lambda n: n.kind == 'b' and n.depth <= 1) or self.fresh(self.rand_shape(2), 'b', styles=['arg', 'arg', 'const'])
+            s = self.apply('astype', {'kind': 'i'}, [b]); lo, hi = 0, 1
+        elif src == 'clip':
+            k = rng.choice([-1, 0, 1, 2])
+            s = self.apply(rng.choice(['minimum', 'maximum']), {}, [int_operand(), self.fresh((), 'i', styles=['scalar', 'const'], values=k)])
+        else:
+            s = self.pick(lambda n: n.desc.get('t') == 'index') or (self.env_leaf() if self.case.env.spaces else None)
+            if s is not None and s.desc.get('t') != 'index': s = None
+        if s is None or s.kind != 'i': return None
+        vals = numpy.concatenate([numpy.asarray(v).ravel() for v in s.vals])
+        if lo is None: lo = int(vals.min())
+        if hi is None: hi = int(vals.max())
+        self.events.append(('intbounds-source-%s%s' % (src, ':range-end-attained' if int(vals.max()) == hi or int(vals.min()) == lo else ''), 'intbounds', {}))
+        c = rng.choice([lo - 1, lo, lo + 1, hi - 1, hi, hi, hi + 1])
+        ops = ['minimum', 'maximum', 'greater', 'less', 'equal', 'op<', 'op>', 'op==']
+        if c > 0: ops += ['mod', 'op%', 'mod', 'op%', 'floor_divide', 'op//']
+        op = rng.choice(ops)
+        e = self.fresh((), 'i', styles=['scalar', 'scalar', 'const', 'nparray'], values=c)
+        operands = [s, e]
+        if op in ('minimum', 'maximum', 'equal', 'op==') and rng.random() < .5: operands.reverse()
+        r = self.apply(op, {}, operands)
+        if r is not None and op in ('mod', 'op%') and 2 <= c <= 4 and rng.random() < .6:
+            choices = [self.fresh(rng.choice([(), s.shape]), 'i', styles=['const', 'arg']) for _ in range(c)]
+            try: numpy.broadcast_shapes(r.shape, *[ch.shape for ch in choices])
+            except ValueError: return r
+            return self.apply(rng.choice(['choose', 'a.choose']), {}, [r] + choices) or r
+        return r
+
     def g_unary(self):
         rng = self.rng
         op = self.choose(sorted(UN))
@@ -758,7 +821,7 @@ class Gen:
         self.events.append(('meta-ok' if ok else 'meta-wrong', 'meta:' + what, dict(op='meta', P={'what': what}, args=[a.id], got=repr(got), want=repr(want))))
         return None
 
-    FAMILIES = [('binary', 20), ('unary', 10), ('power', 3), ('powchain', 3), ('reduce', 12), ('getitem', 14), ('take', 5), ('compress', 2), ('reshape', 8), ('transpose', 7),
+    FAMILIES = [('binary', 20), ('unary', 10), ('power', 3), ('powchain', 3), ('intbounds', 3), ('reduce', 12), ('getitem', 14), ('take', 5), ('compress', 2), ('reshape', 8), ('transpose', 7),
                 ('broadcast', 4), ('concat', 8), ('diag', 4), ('einsum', 7), ('dot', 8), ('cross', 2), ('norm', 3), ('linalg', 3), ('choose', 3), ('search', 4), ('misc', 4)]
 
     def step(self):
